@@ -114,17 +114,15 @@ def project_value(v) -> dict:
   if isinstance(v, float):
     r = round(v * 10)
     return {'h': 'fleaf', 'v': r if abs(v * 10 - r) < 1e-9 else 99999}
-  if isinstance(v, pg.Dict):
+  if isinstance(v, dict):                # pg.Dict or (at the root of a decoded value) a plain dict
     keys = list(v.keys())
     if keys != KEYS[:len(keys)]:
       return {'h': 'leaf', 'v': -2}
     return {'h': 'dict', 'items': [project_value(v[k]) for k in keys]}
-  if isinstance(v, pg.List):
+  if isinstance(v, list):                # pg.List, or the plain list a ManyOf decodes to at the root
     return {'h': 'list', 'items': [project_value(x) for x in v]}
   if isinstance(v, (c['A1'], c['A2'], c['A3'])):
     return {'h': 'obj', 'items': [project_value(v.sym_getattr(k)) for k in list(v.sym_keys())]}
-  if isinstance(v, (list, dict)):
-    return {'h': 'leaf', 'v': -3}          # a plain container where a symbolic one is prescribed
   return {'h': 'leaf', 'v': -9}
 
 
